@@ -59,3 +59,42 @@ package gocvss20
 //@   requires[known_metric] (>= (midx20 abv) 0)
 //@   inline Get
 //@   ensures[value] (and (= (vcode20 (midx20 abv) result) (field20 cvss20 (midx20 abv))) (not (= (vcode20 (midx20 abv) result) #xff)) (> (len result) 0))
+
+// ---- scores (C05, C11, C12); the post clauses are discharged by exhaustive case split ----
+// Where the guide's round_to_1_decimal meets an exact tie either neighbour is conforming, so the
+// contracts are relational; intermediate roundings of the implementation ($call results and the
+// locals recBase / adjustedTemporal) serve as witnesses for the downstream equations.
+
+//@ func (CVSS20).Impact(cvss20)
+//@   requires[wf] (wf20 cvss20)
+//@   ensures[spec] (<= (rabs (- (fp.to_real result) (impact20 cvss20))) 0.000000001)
+//@   allocs 0
+
+//@ func (CVSS20).Exploitability(cvss20)
+//@   requires[wf] (wf20 cvss20)
+//@   ensures[spec] (<= (rabs (- (fp.to_real result) (expl20 cvss20))) 0.000000001)
+//@   allocs 0
+
+//@ func (CVSS20).BaseScore(cvss20)
+//@   requires[wf] (wf20 cvss20)
+//@   inline Impact Exploitability
+//@   ensures[spec] (and (fp.eq result (tenth (kof result))) (baseRel20 cvss20 (kof result)))
+//@   ensures[one_decimal_in_scale] (exists-in (k 0 100) (fp.eq result (tenth k)))
+//@   allocs 0
+
+//@ func (CVSS20).TemporalScore(cvss20)
+//@   requires[wf] (wf20 cvss20)
+//@   ensures[spec] (and (fp.eq result (tenth (kof result))) (tempRel20 (kof $BaseScore#1) cvss20 (kof result)))
+//@   ensures[one_decimal_in_scale] (exists-in (k 0 100) (fp.eq result (tenth k)))
+//@   oracle[spec_closed] (and (fp.eq result (tenth (kof result))) (exists-in (kb 0 100) (and (baseRel20 cvss20 kb) (tempRel20 kb cvss20 (kof result)))))
+//@   allocs 0
+
+//@ func (CVSS20).EnvironmentalScore(cvss20)
+//@   requires[wf] (wf20 cvss20)
+//@   inline Exploitability
+//@   ensures[spec_adjusted_base] (and (fp.eq recBase (tenth (kof recBase))) (adjBaseRel20 cvss20 (kof recBase)))
+//@   ensures[spec_adjusted_temporal] (and (fp.eq adjustedTemporal (tenth (kof adjustedTemporal))) (tempRel20 (kof recBase) cvss20 (kof adjustedTemporal)))
+//@   ensures[spec_final] (and (fp.eq result (tenth (kof result))) (envRel20 (kof adjustedTemporal) cvss20 (kof result)))
+//@   ensures[one_decimal_in_scale] (exists-in (k -2 100) (fp.eq result (tenth k)))
+//@   oracle[spec_closed] (and (fp.eq result (tenth (kof result))) (exists-in (ka -2 100) (and (adjBaseRel20 cvss20 ka) (exists-in (kt -2 100) (and (tempRel20 ka cvss20 kt) (envRel20 kt cvss20 (kof result)))))))
+//@   allocs 0
